@@ -13,6 +13,7 @@
   pinned schema (Obligations.attrs_eq), for all four assignment routes.  PARTIAL in that respect.
 -/
 import Dlismodel.Proofs.Eflr
+import Dlismodel.Proofs.Convert
 namespace Dlis.C05
 open Dlis
 
@@ -301,5 +302,77 @@ example : decodeVal 7 (beN 8 0x8000000000000000) = canon 7 (.f64 0x8000000000000
 example : (encVal 21 (.dtime { year := 2020, month := 5, day := 17, hour := 12, minute := 30, second := 45, micro := 250500 })).toOption.bind
     (decodeVal 21) = some (.dtime { y := 120, tz := 2, month := 5, day := 17, hour := 12, minute := 30, second := 45, ms := 250 }) := by
   decide +kernel
+
+end Dlis.C05
+
+/-
+  C05, link 2 — from what the user assigns to what the attribute holds and hands to the writer
+  (`Model/Convert.lean`: the `value`/`units` setters, `convert_value`, the converters of every attribute kind,
+  the inferred representation code, `count`).  Together with `decode_attr_fidelity` (held state -> file ->
+  decoded value) these give the property end to end inside the model; the converter model is instantiated from
+  the pinned table `Standard.convs`, which `Obligations.convs_eq` ties to the live package, and the `convert`
+  correspondence stream compares it with the real setters on every attribute of every object type.
+-/
+namespace Dlis.C05
+open Dlis
+
+/-- text, names, references and plain attributes: the attribute holds exactly the values assigned, in order
+(as a list when the attribute is multivalued) — nothing is converted, dropped or added -/
+theorem assigned_held_exactly {a : AttrSpec} {hc : Bool} {mem : List PStr} {st st' : AttrState} {v : PyVal}
+    (hi : a.conv.idLike = true) (h : setValue a hc mem st v = .ok st') :
+    st'.value = (if a.multivalued then .list (itemsOf v) else v) ∧ st'.units = st.units := by
+  simp only [setValue, bind_ok, pure_ok] at h
+  obtain ⟨cur, _, nv, hnv, rfl⟩ := h
+  exact ⟨convertValue_idLike hi hnv, rfl⟩
+
+/-- every converting attribute kind: as many values are held as were assigned, in the same order, each the
+converter's image of the one assigned -/
+theorem assigned_held_leafwise {a : AttrSpec} {hc : Bool} {mem : List PStr} {st st' : AttrState} {v : PyVal}
+    (hl : a.conv.leafOnly = true) (h : setValue a hc mem st v = .ok st') :
+    ∃ cur, curRcFor a st.value = .ok cur ∧
+      All2 (fun x y => applyConv a.conv hc cur mem x = .ok y) (flattenV v) (flattenV st'.value) := by
+  simp only [setValue, bind_ok, pure_ok] at h
+  obtain ⟨cur, hcur, nv, hnv, rfl⟩ := h
+  exact ⟨cur, hcur, convertValue_leaves hl hnv⟩
+
+/-- numbers: an accepted value is held as the integer it stands for, or as the double with the same bits
+(a double) / the nearest double (an integer) -/
+theorem numeric_value_kept {intOnly hc : Bool} {rc : Option Nat} {mem : List PStr} {v r : PyVal}
+    (h : applyConv (.numeric intOnly) hc rc mem v = .ok r) :
+    (∃ i, r = .int i ∧ intOf v = some i) ∨
+    (∃ f, r = .float f ∧ (v = .float f ∨ (∃ i, v = .int i ∧ intToF64R i = some f) ∨
+      (∃ b, v = .bool b ∧ f = if b then 0x3FF0000000000000 else 0))) := numeric_spec h
+
+/-- … and the nearest double of an integer of magnitude ≤ 2^53 is that integer exactly -/
+theorem int_as_double_exact (i : Int) (h : i.natAbs ≤ 2 ^ 53) : ∃ f, intToF64R i = some f ∧ f64ToInt f = some i :=
+  intToF64R_exact i h
+
+theorem status_value_kept {hc : Bool} {rc : Option Nat} {mem : List PStr} {v r : PyVal}
+    (h : applyConv .status hc rc mem v = .ok r) :
+    ∃ i, r = .int i ∧ (i = 0 ∨ i = 1) ∧ (intOf v = some i ∨ ∃ s ec p, v = .str s ec p ∧ p.asInt = some i) :=
+  status_spec h
+
+theorem dtime_value_kept {af hc : Bool} {rc : Option Nat} {mem : List PStr} {v r : PyVal}
+    (h : applyConv (.dtime af) hc rc mem v = .ok r) :
+    (∃ t, r = .dtime t ∧ (v = .dtime t ∨ ∃ s ec p, v = .str s ec p ∧ p.asDtime = some t)) ∨
+    (af = true ∧ ∃ f, r = .float f) := dtime_spec h
+
+/-- what the writer is handed are the held values, flattened in order, under the code `representation_code`
+reports, with the units held; and the count written is their number -/
+theorem writer_gets_held_values {a : AttrSpec} {st : AttrState} {s : AttrSt} (h : toAttrSt a st = .ok (some s)) :
+    (flattenV st.value).mapM leafAVal = some s.vals ∧ reprCode a st.value = .ok s.rc ∧ s.units = st.units ∧
+      pyCount a st.value = some s.count :=
+  ⟨(toAttrSt_spec h).1, (toAttrSt_spec h).2.1, (toAttrSt_spec h).2.2.1, toAttrSt_count h⟩
+
+/-- an attribute never assigned (value `None`) is written as the absent-attribute component -/
+theorem unassigned_is_absent (a : AttrSpec) (u : Option PStr) :
+    toAttrSt a (AttrState.mk PyVal.none u) = .ok none := rfl
+
+/-- non-vacuity: a multidimensional numeric attribute given a nested list of an int, a float and a bool -/
+example : (setValue (AttrSpec.mk (.numeric false) none true true true numericCodes) false []
+      (AttrState.mk PyVal.none none)
+      (.list [.int 3, .list [.float 0x4004000000000000, .bool true]])).toOption.map (·.value) =
+    some (.list [.float 0x4008000000000000, .list [.float 0x4004000000000000, .float 0x3FF0000000000000]]) := by
+  rfl
 
 end Dlis.C05
